@@ -231,7 +231,7 @@ func (w *LWorld) genFile(r *core.PRNG, p *LPkg, lf *LFile, fidx, ver int, deps [
 	}
 	name := p.Name
 	if conflict {
-		name = p.Name + "other"
+		name = p.Name + core.Pick(r, []string{"other", "_test", "x"})
 	}
 	lines = append(lines, "package "+name)
 	if useHost {
@@ -291,7 +291,14 @@ func (w *LWorld) genFile(r *core.PRNG, p *LPkg, lf *LFile, fidx, ver int, deps [
 			lines = append(lines, fmt.Sprintf("import ( %s %q )", a, q.Path)) // goatlang accepts an alias only in the block form
 			depAlias[j] = a
 		} else {
-			lines = append(lines, fmt.Sprintf("import %q", q.Path))
+			switch r.Intn(8) {
+			case 0:
+				lines = append(lines, "import `"+q.Path+"`") // a raw string literal is a string literal
+			case 1:
+				lines = append(lines, fmt.Sprintf("import \"\\x%02x%s\"", q.Path[0], q.Path[1:])) // an escape in the path
+			default:
+				lines = append(lines, fmt.Sprintf("import %q", q.Path))
+			}
 			depAlias[j] = alias(q.Path)
 		}
 		fv.Imports = append(fv.Imports, q.Path)
